@@ -208,6 +208,29 @@ M('M02k', 'a second writer of the record in ShmWriter::new', ['C02', 'C04'],
         }''', '''            version.store(1_u16, atomic::Ordering::Relaxed);
             writer.ceb.write(ClockErrorBound::default());
         }''')], {'C02': ['C02.S4'], 'C04': ['C04.T3']})
+M('M02l', 'writer: field-by-field copy that leaves void_after and reserved1 out', ['C02'],
+  [(WRITER, '            self.ceb.write(*ceb);\n', '''            let dst = self.ceb;
+            std::ptr::addr_of_mut!((*dst).as_of).write(ceb.as_of);
+            std::ptr::addr_of_mut!((*dst).bound_nsec).write(ceb.bound_nsec);
+            std::ptr::addr_of_mut!((*dst).max_drift_ppb).write(ceb.max_drift_ppb);
+            std::ptr::addr_of_mut!((*dst).clock_status).write(ceb.clock_status);
+''')], {'C02': ['C02.S6']})
+M('M02m', 'reader: field-by-field copy that leaves void_after out (keeps the default)', ['C02'],
+  [(READER, '            let snapshot = unsafe { self.ceb_shm.read_volatile() };\n', '''            let src = self.ceb_shm;
+            let snapshot = unsafe {
+                ClockErrorBound {
+                    as_of: ptr::addr_of!((*src).as_of).read_volatile(),
+                    bound_nsec: ptr::addr_of!((*src).bound_nsec).read_volatile(),
+                    max_drift_ppb: ptr::addr_of!((*src).max_drift_ppb).read_volatile(),
+                    clock_status: ptr::addr_of!((*src).clock_status).read_volatile(),
+                    ..ClockErrorBound::default()
+                }
+            };
+''')], {'C02': []})
+M('M02n', 'writer: record copied with a byte count that stops before clock_status', ['C02'],
+  [(WRITER, '            self.ceb.write(*ceb);\n',
+    '            std::ptr::copy_nonoverlapping((ceb as *const ClockErrorBound).cast::<u8>(), self.ceb.cast::<u8>(), 48);\n')],
+  {'C02': ['C02.S6']})
 E('E02a', 'SeqCst everywhere and an extra fence', ['C02', 'C11', 'C03', 'C18'],
   [(WRITER, FENCE_W, '            atomic::fence(atomic::Ordering::SeqCst);\n            atomic::fence(atomic::Ordering::Release);\n'),
    (READER, FENCE_R, '            atomic::fence(atomic::Ordering::SeqCst);\n')])
@@ -481,6 +504,8 @@ M('M16e', 'bad magic reported as malformed', ['C16'],
             return Err(ShmError::SegmentMalformed);''')], {'C16': ['C16.V1']})
 M('M16f', 'size test only covers the record', ['C16'],
   [(READER, 'if mmap_guard.segsize < size_of::<ShmHeader>() + size_of::<ClockErrorBound>() {', 'if mmap_guard.segsize < size_of::<ClockErrorBound>() {')], {'C16': ['C16.V1', 'C16.V3']})
+M('M16h', 'only the first magic word is compared', ['C16'],
+  [(HEADER, '        self.magic == *magic', '        self.magic[0] == magic[0]')], {'C16': ['C16.V1']})
 M('M16g', 'wipe declares a size smaller than what new() maps', ['C16'],
   [(WRITER, '        file.write_u32::<NativeEndian>(size)?; // Segsize', '        file.write_u32::<NativeEndian>(size - 8)?; // Segsize')], {'C16': ['C16.V4']})
 
@@ -534,6 +559,15 @@ M('M18c', 'decrement only when the generation was odd', ['C18'],
                     retries -= 1;
                 }
             }''')], {'C18': ['C18.B1']})
+M('M18f', 'unsigned budget, an in-flight observation charged twice: 1 - 2 wraps, the loop never ends in release', ['C18'],
+  [(READER, '        let mut retries = 1_000_000;', '        let mut retries: u32 = 1_000_000;'),
+   (READER, '''                if second_gen & 0x0001 == 0 {
+                    first_gen = second_gen;
+                }''', '''                if second_gen & 0x0001 == 0 {
+                    first_gen = second_gen;
+                } else {
+                    retries -= 1;
+                }''')], {'C18': ['C18.B1']})
 M('M18d', 'reader sleeps between retries', ['C18'],
   [(READER, '            retries -= 1;\n', '            retries -= 1;\n            std::thread::sleep(std::time::Duration::from_millis(1));\n')], {'C18': ['C18.B3']})
 M('M18e', 'odd generation waits for the writer', ['C18', 'C03'],
